@@ -18,9 +18,10 @@ def run(rep, kf, tier, seed):
     # scope uniqueness of an operation's parameters: inductive contract of the conflict resolution (any number of parameters)
     from pyvc import engine_b
     import contracts.param_conflicts as pc
-    engine_b.discharge(rep, kf, [pc.conflicts_contract()], "C09", tier, seed)
+    import contracts.registration as creg
+    engine_b.discharge(rep, kf, [pc.conflicts_contract()] + creg.all_contracts(), "C09", tier, seed)
     from props.common import run_bounded
-    run_bounded(rep, kf, "C09", ["param_conflicts", "model_properties", "enum_values"], tier)
+    run_bounded(rep, kf, "C09", ["param_conflicts", "model_properties", "enum_values", "name_collision"], tier)
     rep.trusted.extend(TRUSTED)
     rep.assumptions.extend([
         "_check_parameters_for_conflicts: Endpoint.iter_all_parameters yields every parameter exactly once as (location, "
